@@ -160,7 +160,7 @@ Definition set_at {A} (i : nat) (x : A) (l : list A) : list A := firstn i l ++ x
 
 Definition indent1 (x : str) : str := match x with [] => [] | _ => INDENT ++ x end.
 (* for idx in range(a, b): if lines[idx] != "": lines[idx] = INDENT + lines[idx] *)
-Fixpoint indent_range (a b : nat) (l : list str) : list str :=
+Fixpoint indent_range (a b : nat) (l : list str) {struct l} : list str :=
   match l with
   | [] => []
   | x :: r =>
